@@ -52,6 +52,8 @@ type Contract struct {
 	Callbacks  map[string]*CallbackSpec // closure param name -> spec
 	File       string
 	Assumes    []Clause // explicitly listed assumptions (counted in evidence)
+	CallSites  map[string][]Clause // callee name -> assertions checked (then assumed) before every call of it inside this function
+	CallSitesPost map[string][]Clause // callee name -> assertions checked (then assumed) after every call of it
 	Used       bool
 }
 
@@ -109,7 +111,8 @@ type Lemma struct {
 	Hyps  []Clause
 	Concl []Clause
 	Pkg   string
-	Axiom bool // assumed, not proved
+	Scope string // package (by name) whose units the axiom is given to: the enclosing scope, else the spec's package
+	Axiom bool   // assumed, not proved
 }
 
 func newContractSet() *ContractSet {
@@ -176,6 +179,16 @@ func (cs *ContractSet) parseContractText(file, pkgName string, text string) erro
 					cur.Callbacks[p.cb] = cb
 				}
 				cb.Invariants = append(cb.Invariants, cls...)
+			case "callsite":
+				if cur.CallSites == nil {
+					cur.CallSites = map[string][]Clause{}
+				}
+				cur.CallSites[p.cb] = append(cur.CallSites[p.cb], cls...)
+			case "callsitepost":
+				if cur.CallSitesPost == nil {
+					cur.CallSitesPost = map[string][]Clause{}
+				}
+				cur.CallSitesPost[p.cb] = append(cur.CallSitesPost[p.cb], cls...)
 			case "panics":
 				cur.PanicsIff = &Clause{E: e, Text: e.String(), Line: where}
 			}
@@ -258,7 +271,10 @@ func (cs *ContractSet) parseContractText(file, pkgName string, text string) erro
 					}
 				}
 			}
-			curLemma = &Lemma{Name: name, Vars: vars, Pkg: pkgName, Axiom: word == "axiom"}
+			curLemma = &Lemma{Name: name, Vars: vars, Pkg: pkgName, Scope: scope, Axiom: word == "axiom"}
+			if curLemma.Scope == "" {
+				curLemma.Scope = pkgName
+			}
 			cs.Lemmas = append(cs.Lemmas, curLemma)
 		case "scope":
 			scope = strings.TrimSpace(rest)
@@ -273,6 +289,19 @@ func (cs *ContractSet) parseContractText(file, pkgName string, text string) erro
 			}
 		case "requires", "ensures", "assume":
 			addPending(word, rest, 0, "")
+		case "callsite":
+			// callsite CALLEE requires EXPR: an assertion checked at every call of CALLEE inside this function, over the
+			// caller's locals, the arguments (arg0, arg1.. ; for methods arg0 is the receiver) and old(...)
+			f := strings.Fields(rest)
+			if cur == nil || len(f) < 3 || (f[1] != "requires" && f[1] != "ensures") {
+				return fmt.Errorf("%s:%d: bad callsite clause (callsite CALLEE requires|ensures EXPR)", file, ln+1)
+			}
+			body := strings.TrimSpace(strings.TrimPrefix(strings.TrimSpace(strings.TrimPrefix(rest, f[0])), f[1]))
+			if f[1] == "requires" {
+				addPending("callsite", body, 0, f[0])
+			} else {
+				addPending("callsitepost", body, 0, f[0])
+			}
 		case "panics":
 			rest = strings.TrimSpace(strings.TrimPrefix(rest, "iff"))
 			addPending("panics", rest, 0, "")
@@ -398,6 +427,11 @@ func (cs *ContractSet) parseContractText(file, pkgName string, text string) erro
 				return fmt.Errorf("%s:%d: bad typeinv", file, ln+1)
 			}
 			i := strings.LastIndex(f[1], ".")
+			if i < 0 {
+				// typeinv pureglobal NAME: a package-level function variable of this package
+				cs.TypeInvs = append(cs.TypeInvs, TypeInv{Type: "", Field: f[1], Kind: f[0], Pkg: pkgName})
+				break
+			}
 			cs.TypeInvs = append(cs.TypeInvs, TypeInv{Type: f[1][:i], Field: f[1][i+1:], Kind: f[0], Pkg: pkgName})
 		case "guarded_by":
 			// guarded_by server.tables server.mu [read=A,B] [write=C,D]
